@@ -225,7 +225,7 @@ def register(R):
     )
 
     # ------------------------------------------------------------------ BandwidthLimitedStream
-    R.add_fields(BLS, _fileobj=ExtT('fileobj'), _leaky_bucket=ExtT('leaky_bucket'), _transfer_coordinator=ObjT(TC),
+    R.add_fields(BLS, _fileobj=ExtT('fileobj'), _leaky_bucket=ExtT('leaky_bucket'), _transfer_coordinator=ObjT(TC, shared=True),
                  _time_utils=ExtT('time_utils'), _bandwidth_limiting_enabled=Bool, _request_token=ExtT('token'),
                  _bytes_seen=Int, _bytes_threshold=Int,
                  valid=lambda view, ref: [view.f(ref, '_bytes_seen') >= 0, view.f(ref, '_bytes_threshold') > 0])
